@@ -510,18 +510,29 @@ func runNet(k *kernel.K) {
 		plain := each
 		each = func(m mutant) {
 			plain(m)
+			if m.kind != "truncate" && m.kind != "intact" && m.kind != "extend" {
+				if p.typ != nil && walk(m.data, p.typ, p.tmpl).giant || p.giant != nil && p.giant(m.data) {
+					return // same pre-screen as the first look: giant declarations are not executed
+				}
+			}
 			fresh := p.newRecv()
 			var ef, er error
 			var bf, br []byte
 			var e1, e2 error
+			big := false
 			if pn, _, _ := guard(func() {
+				a0 := allocNow()
 				ef = fresh.Decode(m.data)
+				if allocNow()-a0 > 4<<20 {
+					big = true // a message that inflates like this is the allocation oracle's business; re-encoding it twice is not worth the time
+					return
+				}
 				er = reused.Decode(m.data)
 				if ef == nil && er == nil {
 					bf, e1 = fresh.Encode()
 					br, e2 = reused.Encode()
 				}
-			}); pn {
+			}); pn || big {
 				return // panics are reported by the first look
 			}
 			if (ef == nil) != (er == nil) || (ef == nil && ((e1 == nil) != (e2 == nil) || !stdbytes.Equal(bf, br))) {
